@@ -39,3 +39,18 @@ func checkC06(c *Ctx) {
 	checkFSubDistribute(c)
 	c.floor("T-TABLE(filterSubscription.run)", 20, "23 iteration paths + initial state")
 }
+
+func init() {
+	props = append(props, propSpec{ID: "C03", Level: "other", Run: checkC03,
+		Explanation: "Transition table of controller.run (6 select arms; atoms: the six error checks and `initialized`) compared with the reference: every list result is synced into the cache, published (after the first) and followed by watcher.reset at that list's version; any failure initiates shutdown with the cause; the list arm is unconditionally enabled and the watcher's channel is re-read every iteration. Plus shapes of executeList/extractList/listResourceVersion (empty ListOptions), builder flows, and the cache step function of C01.",
+		Assumptions: []string{"time to converge and server behaviour are not decided", "relist liveness is C13"}})
+}
+
+func checkC03(c *Ctx) {
+	checkControllerTable(c)
+	checkControllerDistribute(c)
+	checkListHelpers(c)
+	checkControllerAPI(c)
+	c.floor("T-TABLE(controller.run)", 14, "14 iteration paths + initial state")
+	c.floor("T-SHAPE(list-helpers)", 3, "executeList, listResourceVersion, extractList")
+}
